@@ -298,4 +298,72 @@ __CPROVER_ensures(gej_ok(r) && g_ag_n == __CPROVER_old(g_ag_n) + 1 && GEJ_EQ(g_a
 ;
 #endif
 
+/* -------------------------------- secp256k1_surjection_genrand (ORACLE: hash-derived scalars) ---------- */
+#ifdef EL_SJ_GENRAND
+int g_gr_n, g_gr_ret; size_t g_gr_ns; secp256k1_scalar g_gr_key, g_gr_s_i;
+static int secp256k1_surjection_genrand(const secp256k1_hash_ctx *hash_ctx, secp256k1_scalar *s, size_t ns, const secp256k1_scalar *blinding_key)
+__CPROVER_requires(hash_ctx != NULL && ns <= 256 && __CPROVER_w_ok(s, ns * sizeof(secp256k1_scalar)) && __CPROVER_r_ok(blinding_key, sizeof(*blinding_key)) && scalar_ok(blinding_key))
+__CPROVER_assigns(__CPROVER_object_whole(s), g_gr_n, g_gr_ret, g_gr_ns, g_gr_key, g_gr_s_i)
+__CPROVER_ensures(__CPROVER_return_value == 0 || __CPROVER_return_value == 1)
+__CPROVER_ensures(g_gr_n == __CPROVER_old(g_gr_n) + 1 && g_gr_ret == __CPROVER_return_value && g_gr_ns == ns && SC_EQ(g_gr_key, *blinding_key))
+__CPROVER_ensures((__CPROVER_return_value == 1 && g_el_i < ns) ==> (scalar_ok(&s[g_el_i]) && SC_EQ(g_gr_s_i, s[g_el_i])))
+#ifdef EL_SJ_PUBKEYS   /* ... and at the ring position the key computation reported (the caller takes its nonce from there) */
+__CPROVER_ensures((__CPROVER_return_value == 1 && g_pk_ring < ns) ==> scalar_ok(&s[g_pk_ring]))
+#endif
+;
+#endif
+
+/* -------------------------------- secp256k1_borromean_sign, single ring (ORACLE) ------------------------ */
+#ifdef EL_BORROMEAN_SIGN
+int g_bs_n, g_bs_ret; size_t g_bs_nrings, g_bs_rsize0, g_bs_secidx0, g_bs_mlen;
+secp256k1_scalar g_bs_k, g_bs_sec, g_bs_s_i; unsigned char g_bs_m_k, g_bs_e0_k; uint64_t g_bs_pub_x0;
+static int secp256k1_borromean_sign(const secp256k1_hash_ctx *hash_ctx, const secp256k1_ecmult_gen_context *ecmult_gen_ctx,
+ unsigned char *e0, secp256k1_scalar *s, const secp256k1_gej *pubs, const secp256k1_scalar *k, const secp256k1_scalar *sec,
+ const size_t *rsizes, const size_t *secidx, size_t nrings, const unsigned char *m, size_t mlen)
+__CPROVER_requires(hash_ctx != NULL && ecmult_gen_ctx != NULL && nrings == 1 && __CPROVER_r_ok(rsizes, sizeof(size_t)) && __CPROVER_r_ok(secidx, sizeof(size_t)) && rsizes[0] <= 256 && secidx[0] < rsizes[0])
+__CPROVER_requires(__CPROVER_w_ok(e0, 32) && __CPROVER_r_ok(m, mlen) && mlen == 32 && __CPROVER_r_ok(k, sizeof(*k)) && scalar_ok(k) && __CPROVER_r_ok(sec, sizeof(*sec)) && scalar_ok(sec))
+__CPROVER_requires(__CPROVER_rw_ok(s, rsizes[0] * sizeof(secp256k1_scalar)) && __CPROVER_r_ok(pubs, rsizes[0] * sizeof(secp256k1_gej)))
+#ifndef EL_BORROMEAN_SIGN_RELAXED   /* (whitelist_sign unit: the loop contracts of its retry loops do not carry scalar ranges) */
+__CPROVER_requires((g_el_i < rsizes[0] && g_el_i != secidx[0]) ==> scalar_ok(&s[g_el_i]))
+#endif
+__CPROVER_assigns(__CPROVER_object_upto(e0, 32), __CPROVER_object_whole(s), g_bs_n, g_bs_ret, g_bs_nrings, g_bs_rsize0, g_bs_secidx0, g_bs_mlen, g_bs_k, g_bs_sec, g_bs_s_i, g_bs_m_k, g_bs_e0_k, g_bs_pub_x0)
+__CPROVER_ensures(__CPROVER_return_value == 0 || __CPROVER_return_value == 1)
+__CPROVER_ensures(g_bs_n == __CPROVER_old(g_bs_n) + 1 && g_bs_ret == __CPROVER_return_value && g_bs_nrings == nrings && g_bs_rsize0 == rsizes[0] && g_bs_secidx0 == secidx[0] && g_bs_mlen == mlen &&
+                  SC_EQ(g_bs_k, *k) && SC_EQ(g_bs_sec, *sec))
+__CPROVER_ensures(g_el_i < rsizes[0] ==> (scalar_ok(&s[g_el_i]) && SC_EQ(g_bs_s_i, s[g_el_i]) && g_bs_pub_x0 == pubs[g_el_i].x.n[0]))
+__CPROVER_ensures(g_el_k < 32 ==> (g_bs_m_k == m[g_el_k] && g_bs_e0_k == e0[g_el_k]))
+;
+#endif
+
+/* ---------------- secp256k1_whitelist_compute_tweaked_privkey (PROVED: C16.sign_key_gate) --------------- */
+#ifdef EL_WL_TWEAKED_PRIVKEY
+#ifndef VERIF_NATIVE
+static inline int el_key_bad(const unsigned char *k32) { wide v = be256(k32); return v == 0 || v >= N_(); }
+#endif
+int g_tp_n, g_tp_ret; secp256k1_scalar g_tp_skey; unsigned char g_tp_online_k, g_tp_summed_k;
+static int secp256k1_whitelist_compute_tweaked_privkey(const secp256k1_context* ctx, secp256k1_scalar* skey, const unsigned char *online_key, const unsigned char *summed_key)
+__CPROVER_requires(ctx != NULL && __CPROVER_w_ok(skey, sizeof(*skey)) && __CPROVER_r_ok(online_key, 32) && __CPROVER_r_ok(summed_key, 32))
+__CPROVER_assigns(*skey, g_tp_n, g_tp_ret, g_tp_skey, g_tp_online_k, g_tp_summed_k)
+__CPROVER_ensures((__CPROVER_return_value == 0 || __CPROVER_return_value == 1) && scalar_ok(skey))
+__CPROVER_ensures((el_key_bad(online_key) || el_key_bad(summed_key)) ==> __CPROVER_return_value == 0)
+__CPROVER_ensures(g_tp_n == __CPROVER_old(g_tp_n) + 1 && g_tp_ret == __CPROVER_return_value && SC_EQ(g_tp_skey, *skey))
+__CPROVER_ensures(g_el_k < 32 ==> (g_tp_online_k == online_key[g_el_k] && g_tp_summed_k == summed_key[g_el_k]))
+;
+#endif
+/* RFC 6979 nonce function: ORACLE (HMAC-DRBG output), writes 32 bytes, may fail */
+#ifdef EL_NONCE_RFC6979
+/* EL_NONCE_BUDGET: bounded exploration of the callers' retry loops (they have no bound of their own) */
+int g_nf_n;
+static int nonce_function_rfc6979(unsigned char *nonce32, const unsigned char *msg32, const unsigned char *key32, const unsigned char *algo16, void *data, unsigned int counter)
+__CPROVER_requires(__CPROVER_w_ok(nonce32, 32) && __CPROVER_r_ok(msg32, 32) && __CPROVER_r_ok(key32, 32))
+__CPROVER_assigns(__CPROVER_object_upto(nonce32, 32), g_nf_n)
+__CPROVER_ensures(__CPROVER_return_value == 0 || __CPROVER_return_value == 1)
+#ifdef EL_NONCE_BUDGET
+__CPROVER_ensures(g_nf_n == __CPROVER_old(g_nf_n) + 1 && g_nf_n <= EL_NONCE_BUDGET)
+#else
+__CPROVER_ensures(g_nf_n == __CPROVER_old(g_nf_n) + 1)
+#endif
+;
+#endif
+
 #endif
